@@ -28,7 +28,9 @@ RULE = (
     "Hypothesis draws the target type (binary / 3-4 classes / continuous) and the sensitive-feature type "
     "(binary / multiclass / one or two continuous columns) with a label encoding (ints, strings, unsorted "
     "orders), two batches of 2..8 rows x 2..5 features (one-decimal or integer entries; the second batch "
-    "all zero in ~10 % of the cases, and in ~5 % a dead-ReLU adversary, so that dLA/dW == 0 tensors occur), predictor and adversary as keyword lists (0..2 hidden layers of width 1..6, "
+    "all zero in ~10 % of the cases, and in ~5 % a dead-ReLU adversary, so that dLA/dW == 0 tensors occur; with a binary "
+    "target and a predictor without hidden layers, in a quarter of the cases one positive-class row of the second batch is "
+    "moved along the weight vector to a logit of -17.5..-23.5, a confidently wrong row), predictor and adversary as keyword lists (0..2 hidden layers of width 1..6, "
     "optional 'leaky_relu' / 'sigmoid' / 'relu' / nn.Tanh() between) or pre-built nn.Sequential modules "
     "with drawn weights (with or without biases), SGD given as keyword, constructor or instance with "
     "separate learning rates in [0.05, 0.5], alpha in [0, 3] (0 included), demographic parity or equalized "
@@ -111,6 +113,21 @@ def check(case):
     for t in W0 + U0:
         _need(bool(torch.isfinite(t).all()), "parameters are not finite after the first step")
 
+    saturated = False
+    if case.get("saturate") is not None and ycol["type"] == "binary" and not case["pred"]["hidden"]:
+        # a confidently wrong row: a positive-class row of the second batch is moved along the weight vector until its
+        # logit is the drawn value in [-24, -17] (sigmoid ~1e-8..1e-11, representable in float32): the log loss has its
+        # largest gradient there (dLP/dlogit = p - 1 ~ -1)
+        Yb = AC.encode(ycol, b2)[:, 0]
+        pos_rows = [r for r, v in zip(b2, Yb) if v == 1.0]
+        lin = [m for m in P0.modules() if isinstance(m, torch.nn.Linear)][0]
+        wv = lin.weight.detach().double().numpy()[0]
+        bv = float(lin.bias.detach().double().numpy()[0]) if lin.bias is not None else 0.0
+        if pos_rows and float(wv @ wv) > 1e-6:
+            r = pos_rows[0]
+            X[r] = X[r] + (float(case["saturate"]) - (float(wv @ X[r]) + bv)) * wv / float(wv @ wv)
+            saturated = True
+
     fit_batch(b2, False)
     W1, U1 = AC.params_of(eng.predictor_model), AC.params_of(eng.adversary_model)
 
@@ -122,7 +139,7 @@ def check(case):
     if margin < 1e-6:
         raise Skip("a sigmoid output is within 1e-6 of 1 (not representable in the engine's float32)")
 
-    tags = []
+    tags = ["confidently_wrong_row"] if saturated else []
     # float32 resolution of these gradients, measured: the same first-principles computation in float32
     # against float64.  On a tensor whose dLA is tiny by cancellation the *direction* dLA/||dLA|| is only
     # known to dir_err, and the projection inherits that error (tolerances only; never the expected value).
@@ -251,6 +268,11 @@ def _cases(draw):
         adv = {"kind": "module", "hidden": [draw(st.integers(1, 4))], "acts": ["relu"],
                "seed": draw(st.integers(0, 10**6)), "bias": True, "dead_first": True}
 
+    saturate = None
+    if ytype == "binary" and zero_mode == "none" and draw(st.integers(0, 3)) == 0:
+        pred["hidden"], pred["acts"] = [], []  # logistic-regression predictor: one row is moved to a logit of -17.5..-23.5
+        saturate = draw(st.sampled_from([-17.5, -20.0, -23.5]))
+
     def opt(spec):
         kinds = ["str", "callable", "callable"] + (["instance"] if spec["kind"] == "module" else [])
         return draw(st.sampled_from(kinds))
@@ -268,11 +290,13 @@ def _cases(draw):
         "random_state": draw(st.integers(0, 1000)),
         "container": draw(st.sampled_from(["ndarray", "ndarray", "list", "series"])),
         "pass_classes": draw(st.booleans()),
+        "saturate": saturate,
     }
 
 
 SUBS = [
     Sub("update", check, strategy=_cases, quick=400, thorough=12000, shards=16, shrink_quick=False,
         floors={"nt": 0.254, "eo": 0.167, "dp": 0.277, "y_binary": 0.2, "y_multi": 0.1, "y_cont": 0.096,
-                "a_multi": 0.08, "pred_hidden": 0.323, "adv_hidden": 0.302, "module": 0.2, "zero_dLA_tensor": 0.08, "zero_dLA_nonzero_dLP": 0.04}),
+                "a_multi": 0.08, "pred_hidden": 0.323, "adv_hidden": 0.302, "module": 0.2, "zero_dLA_tensor": 0.08, "zero_dLA_nonzero_dLP": 0.04,
+                "confidently_wrong_row": 0.02}),
 ]
